@@ -12,9 +12,10 @@ open WorkflowModel
 structure Inv (cfg : Cfg) (s : Sys) : Prop where
   hist : HistInv cfg s
   relay : RelayInv s
+  one : OneUnf s.runs
 
 theorem Inv.frame {cfg : Cfg} {s s' : Sys} (h : Inv cfg s) (hr : s'.runs = s.runs) (hrel : RelayInv s') : Inv cfg s' :=
-  ⟨h.hist.frame hr, hrel⟩
+  ⟨h.hist.frame hr, hrel, by rw [hr]; exact h.one⟩
 
 def HT (cfg : Cfg) (env : Env) {α : Type} (P : List RunS → Prop) (m : M α) (Q : α → List RunS → Prop) : Prop :=
   ∀ st : OpSt, Inv cfg st.sys → st.stale = 0 → P st.sys.runs →
@@ -192,17 +193,25 @@ theorem HT.latest (fid : Fid) : HT cfg env P (Engine.latest fid) (fun v R => P R
   simp only [Except.ok.injEq] at hv
   rw [← hv, latestRes_eq, hs']
 
-theorem HT.store (w : Rec) : HT cfg env (fun R => Legal cfg R w) (Engine.store cfg w) (fun _ _ => True) := by
+theorem LegalNew.stamp {R : List RunS} {w : Rec} (h : LegalNew R w) (t : Int) : LegalNew R { w with updatedAt := t } := h
+
+theorem HT.store (w : Rec) : HT cfg env (fun R => Legal cfg R w ∧ LegalNew R w) (Engine.store cfg w) (fun _ _ => True) := by
   intro st hi hz hp
   have hs := store_run_any cfg w env st
   refine ⟨?_, ?_, fun _ _ => trivial⟩
   · rcases hs.1 with h | h
     · rw [h]; exact hi
-    · rw [h]; exact ⟨hi.hist.write hp, hi.relay.write cfg w⟩
+    · rw [h]
+      refine ⟨hi.hist.write hp.1, hi.relay.write cfg w, ?_⟩
+      rw [write_runs']
+      split
+      · exact hi.one.writeRuns (hp.1.stamp _) (hp.2.stamp _)
+      · exact hi.one.writeRuns hp.1 hp.2
   · unfold Engine.store; rw [call_stale]; exact hz
 
 theorem HT.updateRecord (r : Rec) :
-    HT cfg env (fun R => Legal cfg R { r with version := r.version + 1 }) (Engine.updateRecord cfg r) (fun _ _ => True) := by
+    HT cfg env (fun R => Legal cfg R { r with version := r.version + 1 } ∧ LegalNew R { r with version := r.version + 1 })
+      (Engine.updateRecord cfg r) (fun _ _ => True) := by
   unfold Engine.updateRecord; exact HT.store _
 
 theorem HT.ack (p : Proc) (i : Nat) : HT cfg env P (Engine.ack p i) (fun _ => P) := by
